@@ -306,14 +306,63 @@ theorem initialAddrs_nodup (c : Cfg) : c.initialAddrs.Nodup := by
   apply List.Pairwise.map _ _ (List.nodup_range (n := c.acount))
   intro a b hab; omega
 
+/-! ### what NewPrefixPool builds -/
+
+/-- the bit-placing loop computes `(i mod 2^indexBits) * step`: index bits at or above `indexBits` are dropped -/
+theorem placeIndex_eq (i ib step : Nat) : placeIndex i ib step = (i % 2 ^ ib) * step := by
+  unfold placeIndex
+  induction ib with
+  | zero => simp [Nat.mod_one]
+  | succ n ih =>
+    rw [List.range_succ, List.foldl_append, ih]
+    simp only [List.foldl_cons, List.foldl_nil]
+    rw [Nat.mod_pow_succ, Nat.testBit_eq_decide_div_mod_eq]
+    rcases Nat.mod_two_eq_zero_or_one (i / 2 ^ n) with h | h
+    · simp [h]
+    · simp [h, Nat.add_mul]
+
+theorem prefixAt_eq (c : Cfg) (i : Nat) : c.prefixAt i = c.pbase + (i % 2 ^ c.indexBits) * c.pstep := by
+  unfold Cfg.prefixAt; rw [placeIndex_eq]
+
+/-- the number of entries never exceeds the number of distinct index values -/
+theorem pcount_le (c : Cfg) : c.pcount ≤ 2 ^ c.indexBits := by
+  unfold Cfg.pcount
+  split
+  · exact Nat.le_refl _
+  · rename_i h
+    have : 2 ^ 10 ≤ 2 ^ c.indexBits := Nat.pow_le_pow_right (by omega) (by omega)
+    omega
+
+theorem pstep_pos (c : Cfg) : 0 < c.pstep := Nat.pow_pos (by omega)
+
+/-- below `2^indexBits` the index is recovered from the prefix: `i ↦ prefixAt i` is injective there -/
+theorem prefixAt_small (c : Cfg) {i : Nat} (hi : i < 2 ^ c.indexBits) : c.prefixAt i = c.pbase + i * c.pstep := by
+  rw [prefixAt_eq, Nat.mod_eq_of_lt hi]
+
+theorem prefixAt_injective (c : Cfg) {i j : Nat} (hi : i < 2 ^ c.indexBits) (hj : j < 2 ^ c.indexBits)
+    (h : c.prefixAt i = c.prefixAt j) : i = j := by
+  rw [prefixAt_small c hi, prefixAt_small c hj] at h
+  have : i * c.pstep = j * c.pstep := by omega
+  exact Nat.eq_of_mul_eq_mul_right (pstep_pos c) this
+
 theorem initialPrefixes_nodup (c : Cfg) : c.initialPrefixes.Nodup := by
   unfold Cfg.initialPrefixes
-  apply List.Pairwise.map _ _ (List.nodup_range (n := c.pcount))
-  intro a b hab
-  have hs : 0 < c.pstep := Nat.pow_pos (by omega)
-  intro h
-  have : a * c.pstep = b * c.pstep := by omega
-  exact hab (Nat.eq_of_mul_eq_mul_right hs this)
+  have hle := pcount_le c
+  have : ∀ (l : List Nat), l.Nodup → (∀ x ∈ l, x < c.pcount) → (l.map c.prefixAt).Nodup := by
+    intro l hl hlt
+    induction l with
+    | nil => exact List.nodup_nil
+    | cons a rest ih =>
+      have hc := List.nodup_cons.mp hl
+      simp only [List.map_cons, List.nodup_cons, List.mem_map, not_exists, not_and]
+      refine ⟨?_, ih hc.2 (fun x hx => hlt x (List.mem_cons_of_mem _ hx))⟩
+      intro x hx he
+      have hx' := hlt x (List.mem_cons_of_mem _ hx)
+      have ha' := hlt a (by simp)
+      have := prefixAt_injective c (by omega) (by omega) he
+      subst this
+      exact hc.1 hx
+  exact this _ List.nodup_range (fun x hx => List.mem_range.mp hx)
 
 theorem bind6_init (c : Cfg) : Bind6 (init c) := by
   refine ⟨⟨?_, ?_, ?_, ?_, ?_⟩, ⟨?_, ?_, ?_, ?_, ?_⟩, ?_, ?_⟩
@@ -346,6 +395,7 @@ theorem bind6_init (c : Cfg) : Bind6 (init c) := by
     · unfold Cfg.initialPrefixes at h
       simp only [List.mem_map, List.mem_range] at h
       obtain ⟨i, hi, rfl⟩ := h
+      rw [prefixAt_small c (Nat.lt_of_lt_of_le hi (pcount_le c))]
       have hs : 0 < c.pstep := Nat.pow_pos (by omega)
       have hc : (init c).cfg = c := rfl
       rw [hc]
